@@ -23,11 +23,11 @@ CLAIMED = {
          "split, chunks, join and fork metadata (= every instant of every schedule) is symbolic under the phase invariant; a recording fake job "
          "manager is the observer. Asserted: chunk jobs only after split complete, join only after all chunks complete, a node submits only "
          "when running and enters running only when producer, disabling source and every enclosing preflight are done.",
-         "Trusted: go/ssa, symgo, z3; the OS-boundary and AST/JSON stubs listed in the evidence (each returns an arbitrary outcome within its contract); the assumed representation invariant PhaseInv; the hand-built graph (one fork per node, <=2 chunks, P{PRE,A,C,Q{B}}). Outside: prenode construction from bindings, dynamic fork expansion, real processes and job-manager queues.", "DESIGN.md §4 (C02)"),
+         "Trusted: go/ssa, symgo, z3; the OS-boundary and AST/JSON stubs listed in the evidence (each returns an arbitrary outcome within its contract); the assumed representation invariant PhaseInv; the hand-built graph (one fork per node, <=2 chunks, P{PRE,A,C,Q{R{B}}}). Outside: prenode construction from bindings, dynamic fork expansion, real processes and job-manager queues.", "DESIGN.md §4 (C02)"),
  "C03": ("Same harness family as C02, plus two consecutive steps with arbitrary job progress and an optional restart in between: no metadata is "
          "handed to execJob twice, a job is submitted only from its empty state and then carries _jobinfo, exactly the chunks _stage_defs lists are "
-         "created, a disabled fork submits nothing and is marked disabled.",
-         "Trusted: go/ssa, symgo, z3; the OS-boundary and AST/JSON stubs listed in the evidence (each returns an arbitrary outcome within its contract); the assumed representation invariant PhaseInv; the hand-built graph (one fork per node, <=2 chunks, P{PRE,A,C,Q{B}}). Outside: prenode construction from bindings, dynamic fork expansion, real processes and job-manager queues. Also outside: static fork enumeration (MakeForkIds) and compile-time disabled pruning.", "DESIGN.md §4 (C03)"),
+         "created, a disabled fork submits nothing and is marked disabled; MakeForkIds yields exactly one id per element/key; constant disabling conditions are pruned only when all-false / all-true.",
+         "Trusted: go/ssa, symgo, z3; the OS-boundary and AST/JSON stubs listed in the evidence (each returns an arbitrary outcome within its contract); the assumed representation invariant PhaseInv; the hand-built graph (one fork per node, <=2 chunks, P{PRE,A,C,Q{R{B}}}). Outside: prenode construction from bindings, dynamic fork expansion, real processes and job-manager queues. Static fork enumeration (MakeForkIds on static arrays / maps of 1..3 entries) and the compile-time pruning of constant disabling conditions have their own harnesses.", "DESIGN.md §4 (C03)"),
  "C04": ("Decision and bookkeeping of volatile data removal from the real code: partialVdrKill from arbitrary coarse states of the "
          "producer fork and two consumers with arbitrary keep-alive membership (incl. the top-level/retain holder), and the real "
          "vdrKillSome/vdrKill with os.RemoveAll recorded over a symbolic file cache (directory, file inside it, sibling; arbitrary "
@@ -47,7 +47,7 @@ CLAIMED = {
  "C05": ("Partial (restart decision kernel): crash points are symbolic sentinel-file sets closed under the order a job writes its files. "
          "The real checkedReset/restartLocal/restartQueuedLocal/uncheckedReset/removeAll run on them (process liveness, recorded pid and "
          "_jobinfo readability arbitrary): a job with recorded completion is never reset, exactly failed / queued / dead-process jobs are, and "
-         "nothing of the old attempt stays cached; two scheduler steps with a restart in between never resubmit a job with recorded progress; "
+         "nothing of the old attempt stays cached; Pipestance.Reset + RestartLocalJobs (what mrp does on re-attach) leaves no chunk queued or running under a dead process; two scheduler steps with a restart in between never resubmit a job with recorded progress; "
          "Lock refuses an existing _lock without side effects and a handled signal removes it.",
          "Trusted: go/ssa, symgo, z3, the OS-boundary stubs listed in the evidence, the crash-consistency assumption. Outside: equality of final "
          "outputs with an uninterrupted run, RestoreForks end to end, VDR/post-processing interruption, the real signal machinery, SIGKILL windows.",
@@ -55,8 +55,8 @@ CLAIMED = {
  "C06": ("Partial (scheduler decision kernel): faults are symbolic sentinel files and stub verdicts — _errors/_assert in any combination, "
          "unreadable or invalid outputs, unparseable _stage_defs. Asserted: failure precedence, a failed job fails its fork and node, a failed "
          "node stays on the frontier and the pipestance state is failed never complete, consumers wait and submit nothing, independent stages "
-         "are unaffected, invalid outputs write _errors and never _complete.",
-         "Trusted: go/ssa, symgo, z3; the OS-boundary and AST/JSON stubs listed in the evidence (each returns an arbitrary outcome within its contract); the assumed representation invariant PhaseInv; the hand-built graph (one fork per node, <=2 chunks, P{PRE,A,C,Q{B}}). Outside: prenode construction from bindings, dynamic fork expansion, real processes and job-manager queues. Also outside: how a process failure becomes _errors, retries, mrp exit code, restart after the fault is removed.", "DESIGN.md §4 (C06)"),
+         "are unaffected, invalid outputs write _errors and never _complete; LocalJobManager.Enqueue with the job process replaced by an arbitrary outcome per attempt leaves _errors behind for every failed process, re-runs only spawn failures and at most maxRetries times.",
+         "Trusted: go/ssa, symgo, z3; the OS-boundary and AST/JSON stubs listed in the evidence (each returns an arbitrary outcome within its contract); the assumed representation invariant PhaseInv; the hand-built graph (one fork per node, <=2 chunks, P{PRE,A,C,Q{R{B}}}). Outside: prenode construction from bindings, dynamic fork expansion, real processes and job-manager queues. Also outside: mrjob (how the monitor turns an exit status into _errors), transient-error regexps and mrp attemptRetry, mrp exit code, restart after the fault is removed.", "DESIGN.md §4 (C06)"),
  "C08": ("Every byte string up to 3 (thorough 4) bytes is run symbolically through the real lexer step, the scanner loop, and the whole "
          "expression parser (yacc tables + grammar actions); 19/20-digit integer tokens and 8-hex-digit \\U escapes get their own harnesses. "
          "An uncaught Go panic on any path is a violation with concrete bytes, replayed natively. Partial: lexer contract and "
@@ -88,8 +88,8 @@ CLAIMED = {
  "C10": ("Partial (order-independence of the emitters): every range over a Go map in the executed code picks an arbitrary permutation "
          "(engine-level nondeterminism); map expressions, binding maps, argument maps, metadata listings and job-script environment blocks with "
          "2-3 distinct symbolic keys are emitted twice and the solver shows the two outputs are byte-identical on every pair of orders.",
-         "Trusted: go/ssa, symgo (map-order model), z3. Outside: whole-pipeline Format/MakeCallGraph identity, error-message order, fork id "
-         "enumeration, cross-process repetition.",
+         "Trusted: go/ssa, symgo (map-order model), z3. Static fork-id enumeration over a map source (MakeForkIds) is sorted under every iteration order. Outside: whole-pipeline Format/MakeCallGraph identity, error-message order, "
+         "cross-process repetition.",
          "DESIGN.md §4 (C10)"),
  "C11": ("Map keys of up to 3 (thorough 4) arbitrary bytes, array indices < 1000 and every journal file name built from "
          "(node, fork, chunk?, 10-hex uniquifier?, prefix, state) are symbolic; the real makeKeySafe/url.PathEscape, forkString, "
@@ -97,15 +97,15 @@ CLAIMED = {
          "find, getFork, Metadata.cache are executed and the solver shows the name is injective and parses back to exactly its "
          "writer; counterexamples replay natively. Bounded.",
          "Trusted: go/ssa lowering, symgo, the regex VM and Replacer models (validated by native replay of witnesses), z3. "
-         "Outside: indices >= 1000, nested fork ids in routing, file-name length limits, directory listing.",
+         "Node.refreshState runs on a symbolic journal listing. Outside: indices >= 1000, nested fork ids in routing, file-name length limits.",
          "DESIGN.md §4 (C11)"),
  "C12": ("One-step induction on the real ResourceSemaphore and MaxJobsSemaphore code: the pre-state (capacities, reservation, a queue of "
          "k<=3 (5) waiters with ghost channels; 3 jobs with arbitrary membership, metadata files and Limit) is symbolic subject to the "
          "representation invariant, one operation with arbitrary arguments runs, and the solver shows invariant, FIFO prefix grants, exact "
          "accounting, no lost wake-up and mutex discipline afterwards. Each operation is atomic under its mutex, so histories of any "
-         "length are covered for states within the bound. Bounded values (2^40) and queue length.",
+         "length are covered for states within the bound. Bounded values (2^40) and queue length. LocalJobManager.Enqueue (job process stubbed with an arbitrary outcome): the clamped request is reserved while the job runs, within every limit, and released whatever the outcome.",
          "Trusted: go/ssa, symgo, ghost models of sync.Mutex/Cond/channels, cvc5 --solve-bv-as-int and z3. Caller contracts assumed "
-         "(amounts>=0, Release<=reserved, UpdateSize<=maxSize). Outside: clamping in GetSystemReqs (floating point), OS liveness, "
+         "(amounts>=0, Release<=reserved, UpdateSize<=maxSize). Outside: clamping in GetSystemReqs beyond the six enumerated floating-point requests, OS liveness, "
          "remote manager goroutines.",
          "DESIGN.md §4 (C12)"),
  "C19": ("Partial (reference rewriting of rename edits): the real updateRef/updateRefInExp on references with symbolic ids, output paths and "
